@@ -12,6 +12,7 @@ from collections import OrderedDict
 
 import numpy as np
 from synapgrad.nn.modules import Module, Parameter, Sequential
+from synapgrad.tensor import Tensor
 
 SIZES = (1, 2, 3, 5)
 OD_KEYS = ("z", "k", "m")           # deliberately not in sorted order
@@ -192,7 +193,7 @@ class T(Module):
 
 class World:
     def __init__(self):
-        self.M, self.P = {}, {}
+        self.M, self.P, self.outside = {}, {}, {}
 
     def mod(self, j):
         if j not in self.M:
@@ -201,9 +202,14 @@ class World:
 
     def par(self, k):
         if k not in self.P:
-            p = Parameter(np.full(SIZES[k], k + 1.0, dtype=np.float32), requires_grad=True)
-            p._grad = np.full(SIZES[k], 10.0 + k, dtype=np.float32)
+            # every parameter is made the way a user makes one from an existing tensor, Parameter(t); the source tensor and a second Parameter made from the same source
+            # stay OUTSIDE every module: they belong to the frame of every operation (flags and gradient slots are per object, only the data buffer may be shared)
+            src = Tensor(np.full(SIZES[k], k + 1.0, dtype=np.float32), requires_grad=True)
+            p, twin = Parameter(src), Parameter(src)
+            for j_, t_ in enumerate((p, src, twin)):
+                t_._grad = np.full(SIZES[k], 10.0 + k + 100 * j_, dtype=np.float32)
             self.P[k] = p
+            self.outside["src%d" % k], self.outside["twin%d" % k] = src, twin
         return self.P[k]
 
     def value(self, val):
@@ -230,7 +236,7 @@ class World:
 
     def flags(self):
         return ({j: m.training for j, m in self.M.items()},
-                {k: (p.requires_grad, p._grad, None if p._grad is None else np.array(p._grad, copy=True)) for k, p in self.P.items()})
+                {k: (p.requires_grad, p._grad, None if p._grad is None else np.array(p._grad, copy=True)) for k, p in list(self.P.items()) + list(self.outside.items())})
 
 
 def api_of(op):
@@ -356,14 +362,14 @@ def check(prog, g=None, g0=None):
     for k, (orq, _, gold) in old_p.items():
         nrq, _, gnew = new_p[k]
         ck(nrq == exp_rg[k], api + (".acts_on_every_reachable_parameter" if frz_call and k in rp else ".leaves_other_parameters_alone"),
-           "P%d.requires_grad is %s, contract says %s", (k, nrq, exp_rg[k]), {"param": k})
+           "P%s.requires_grad is %s, contract says %s", (k, nrq, exp_rg[k]), {"param": k})
         same = gnew is not None and gold is not None and gnew.shape == gold.shape and bool((gnew == gold).all())
         if k in zeroed:
             iszero = gnew is not None and gnew.shape == (SIZES[k],) and not gnew.any()
             # a reachable but frozen parameter: the property admits both readings (zeroed or skipped)
-            ck(iszero or (same and not orq), api + ".zeroes_every_reachable_trainable_parameter", "P%d._grad is %r, expected zeros", (k, gnew), {"param": k})
+            ck(iszero or (same and not orq), api + ".zeroes_every_reachable_trainable_parameter", "P%s._grad is %r, expected zeros", (k, gnew), {"param": k})
         else:
-            ck(same, api + ".leaves_other_gradients_alone", "P%d._grad changed from %r to %r", (k, gold, gnew), {"param": k})
+            ck(same, api + ".leaves_other_gradients_alone", "P%s._grad changed from %r to %r", (k, gold, gnew), {"param": k})
     if op[0] == "set":
         tgt, v, name = w.M[op[1]], w.value(op[3]), op[2]
         old = g0.cur.get(op[1], {}).get(name)
@@ -513,7 +519,10 @@ def source(prog):
     L = ["import numpy as np", "from collections import OrderedDict", "from synapgrad.nn.modules import Module, Parameter, Sequential",
          "class T(Module):", "    def forward(self, x): return x"]
     L += ["M%d = T()" % j for j in sorted(g.usedM) if j not in seqs]
-    L += ["P%d = Parameter(np.ones(%d, dtype=np.float32), requires_grad=True)" % (k, SIZES[k]) for k in sorted(g.usedP)]
+    L.insert(3, "from synapgrad.tensor import Tensor")
+    for k in sorted(g.usedP):
+        L += ["src%d = Tensor(np.ones(%d, dtype=np.float32), requires_grad=True)" % (k, SIZES[k]), "P%d, twin%d = Parameter(src%d), Parameter(src%d)   # src and twin stay outside every module" % (k, k, k, k),
+              "for t in (P%d, src%d, twin%d): t._grad = np.ones(%d, dtype=np.float32)" % (k, k, k, SIZES[k])]
     built = []
     for oi, op in enumerate(prog):
         if oi > 0:
